@@ -19,7 +19,8 @@ RULE = ('every helper (callable class attribute, names compared as sets, signatu
         'trivial subclass of AbstractExcelInPython is called with identical arguments: argument tuples recorded by a wrapper '
         'on the generated class while a mixed workbook (all 40 functions, operators, criteria lambdas, ranges, blanks, dates) '
         'is evaluated under several override valuations, plus synthetic tuples per helper family drawn from typed pools; '
-        'results compared by canonical form (type + value, blank objects by kind) or exception class. EmptyCell comparison '
+        'results compared by canonical form (type + value, blank objects by kind) or exception class, once on fresh instances per call and '
+        'once as a history of calls on one long-lived instance per runtime. EmptyCell comparison '
         'tables compared on a value grid. Non-trivial: distinct (helper, canonical arguments) on which the helper returned '
         'normally in at least one runtime')
 ASSUMPTIONS = ['the generated runtime does not depend on the translated cells (helpers are class-level)',
@@ -110,7 +111,7 @@ def remap(v, cls):
     return v
 
 
-def call(cls, inst, name, args):
+def call(cls, inst, name, args, inst_given=False):
     f, is_static = helper_names(cls)[name]
     a = remap(args, cls)
     try:
@@ -322,6 +323,24 @@ def run_shard(shard, ctx):
     for name in sorted(common):
         for args in synth(name, rng, per):
             differential(r, gen, hand, name, args, 'synthetic')
+        # (c) the same tuples once more as ONE history on ONE instance of each runtime: state a helper keeps on its instance
+        #     (or on its class) between calls must evolve identically in both runtimes
+        gi, hi = gen(), hand()
+        for k, args in enumerate(synth(name, rng, per)):
+            if name == '_criterion':
+                a = call_predicate(gen, gi, name, subst_blank(args, gen))
+                b = call_predicate(hand, hi, name, subst_blank(args, hand))
+            else:
+                a = call(gen, gi, name, subst_blank(args, gen), inst_given=True)
+                b = call(hand, hi, name, subst_blank(args, hand), inst_given=True)
+            r.ev()
+            r.count('stateful_calls')
+            if name == '_today' and a[0] == b[0] == 'ok':
+                continue
+            if a != b:
+                report(r, ID, None, {'helper': name, 'args': canon(args), 'source': 'synthetic-history', 'position_in_history': k},
+                       {'generated': a, 'abstract': b}, 'identical result or exception class on one long-lived instance', monitor='helper-differential-history')
+                break
         if not synth(name, rng, 1) and name not in ('get_titles', 'get_sheets_size'):  # those two return workbook data
             r.seen('helpers_without_synthetic_pool', name)
     r.sample({'helpers': sorted(common)[:8], 'recorded_example': [n for n, _ in recorded[:5]]})
